@@ -107,7 +107,10 @@ macro_rules! field_impl {
             }
 
             pub fn set_bit(&mut self, bit: usize, to: bool) {
-                self.0.set_bit(bit, to);
+                // the stored limbs are in Montgomery form: edit the canonical value, then reduce
+                let mut a = U256::from(*self);
+                a.set_bit(bit, to);
+                *self = Self::new_mul_factor(a);
             }
 
             #[inline]
